@@ -205,7 +205,18 @@ impl<T> MailboxConsumer<T> {
 
   /// Receives a message asynchronously.
   pub(crate) fn recv_async(&self) -> RecvFuture<'_, T> {
-    RecvFuture { consumer: self }
+    RecvFuture {
+      consumer: self,
+      rejected: false,
+    }
+  }
+
+  /// For a receive started on a handle that was already closed: resolves with Disconnected.
+  pub(crate) fn recv_async_rejected(&self) -> RecvFuture<'_, T> {
+    RecvFuture {
+      consumer: self,
+      rejected: true,
+    }
   }
 
   /// Returns the capacity of the mailbox.
@@ -224,12 +235,16 @@ impl<T> MailboxConsumer<T> {
 #[must_use = "futures do nothing unless you .await or poll them"]
 pub struct RecvFuture<'a, T> {
   consumer: &'a MailboxConsumer<T>,
+  rejected: bool,
 }
 
 impl<'a, T> Future for RecvFuture<'a, T> {
   type Output = Result<T, RecvError>;
 
   fn poll(self: Pin<&mut Self>, cx: &mut Context<'_>) -> Poll<Self::Output> {
+    if self.rejected {
+      return Poll::Ready(Err(RecvError::Disconnected));
+    }
     let mut guard = self.consumer.shared.internal.lock();
 
     // Try to receive a value.
